@@ -59,7 +59,7 @@ func NewConverter(opts *ConvertOptions) *Converter {
 		extensions = append(extensions, mathjax.NewMathJax(
 			mathjax.WithInlineDelim("$", "$"),
 			mathjax.WithBlockDelim("$$", "$$"),
-		))
+		), safeMathBlocks{}) // 块级公式由本包的解析器处理，见 math_block_parser.go
 	}
 
 	md := goldmark.New(
